@@ -8,6 +8,7 @@
 //!   parse  {text}                         -> does the front end accept the text? (stage + message)
 //!   layout {type,value}                   -> real StructuralType / StructuralValue of a typed value
 //!   jets   (no stdin)                     -> every Elements jet with its Simfony signature
+//!   run    {op:"mapvalue",text,args?,cmr,bits,expect?} -> real TrackedCall::map_value on a marker's input value
 //!   value  {type,text}                    -> Value::parse_from_str verdict + structural bits
 
 use std::collections::HashMap;
@@ -355,6 +356,108 @@ fn run(req: &J) -> J {
     })
 }
 
+/// The real `TrackedCall::map_value` on the Simplicity value a debug marker receives: the marker is looked up by its
+/// CMR in the debug build, the value is rebuilt from its padded bits at the type the marker node has in the emitted
+/// program, and the reconstructed source-level value is compared with the expected one (given as text).
+fn mapvalue(req: &J) -> J {
+    use simfony::debug::{FallibleCallName, TrackedCallName};
+    use simfony::either::Either;
+    let text = match req.get("text").and_then(J::as_str) {
+        Some(t) => t,
+        None => return json!({"ok": false, "stage": "request", "error": "no text"}),
+    };
+    let want_cmr = req.get("cmr").and_then(J::as_str).unwrap_or("");
+    let bits = req.get("bits").and_then(J::as_str).unwrap_or("");
+    let parsed = match simfony::parse::Program::parse_from_str(text) {
+        Ok(p) => p,
+        Err(e) => return json!({"ok": false, "stage": "parse", "error": e.to_string()}),
+    };
+    let ast = match simfony::ast::Program::analyze(&parsed) {
+        Ok(p) => p,
+        Err(e) => return json!({"ok": false, "stage": "analyze", "error": e.to_string()}),
+    };
+    let args = match parse_args(req) {
+        Ok(a) => a,
+        Err(e) => return json!({"ok": false, "stage": "args", "error": e}),
+    };
+    let node = match ast.compile(args, true) {
+        Ok(n) => n,
+        Err(e) => return json!({"ok": false, "stage": "compile", "error": e.to_string()}),
+    };
+    let symbols = ast.debug_symbols(text);
+    for item in node.as_ref().post_order_iter::<InternalSharing>() {
+        let n = item.node;
+        let cmr = match n.inner() {
+            Inner::AssertL(_, cmr) => cmr,
+            _ => continue,
+        };
+        if hex(cmr.as_ref()) != want_cmr {
+            continue;
+        }
+        let call = match symbols.get(cmr) {
+            Some(c) => c,
+            None => return json!({"ok": false, "stage": "symbols", "error": "CMR is not a debug symbol"}),
+        };
+        let src = match n.cached_data().arrow().source.finalize() {
+            Ok(t) => t,
+            Err(e) => return json!({"ok": false, "stage": "finalize", "error": e.to_string()}),
+        };
+        let arg_ty = match src.as_product() {
+            Some((_, r)) => r.clone(),
+            None => return json!({"ok": false, "stage": "shape", "error": "marker source is not a product"}),
+        };
+        if bits.len() != arg_ty.bit_width() {
+            return json!({"ok": false, "stage": "bits", "error": format!("{} bits given, marker argument has {}", bits.len(), arg_ty.bit_width())});
+        }
+        let bytes = bits_of(bits);
+        let mut it = BitIter::new(bytes.into_iter());
+        let v = match simplicity::Value::from_padded_bits(&mut it, &arg_ty) {
+            Ok(v) => v,
+            Err(e) => return json!({"ok": false, "stage": "bits", "error": format!("{e:?}")}),
+        };
+        let sv = StructuralValue::from(v);
+        let declared = match call.name() {
+            TrackedCallName::Debug(t) | TrackedCallName::UnwrapLeft(t) | TrackedCallName::UnwrapRight(t) => Some(t.clone()),
+            _ => None,
+        };
+        let mapped = call.map_value(&sv);
+        let (kind, value) = match &mapped {
+            None => ("none", None),
+            Some(Either::Right(d)) => ("debug", Some(d.value().clone())),
+            Some(Either::Left(f)) => match f.name() {
+                FallibleCallName::UnwrapLeft(v) => ("unwrap_left", Some(v.clone())),
+                FallibleCallName::UnwrapRight(v) => ("unwrap_right", Some(v.clone())),
+                FallibleCallName::Assert => ("assert", None),
+                FallibleCallName::Panic => ("panic", None),
+                FallibleCallName::Jet => ("jet", None),
+                FallibleCallName::Unwrap => ("unwrap", None),
+            },
+        };
+        let mut expect_eq = J::Null;
+        let mut expect_err = J::Null;
+        if let (Some(exp), Some(t)) = (req.get("expect").and_then(J::as_str), declared.as_ref()) {
+            match Value::parse_from_str(exp, t) {
+                Ok(e) => expect_eq = json!(value.as_ref() == Some(&e)),
+                Err(e) => {
+                    expect_eq = json!(false);
+                    expect_err = json!(e.to_string());
+                }
+            }
+        }
+        return json!({
+            "ok": true,
+            "kind": kind,
+            "call_text": call.text(),
+            "declared_type": declared.map(|t| t.to_string()),
+            "value": value.as_ref().map(|v| v.to_string()),
+            "value_type": value.as_ref().map(|v| v.ty().to_string()),
+            "expect_eq": expect_eq,
+            "expect_error": expect_err,
+        });
+    }
+    json!({"ok": false, "stage": "lookup", "error": "no assertl node with this CMR in the debug build"})
+}
+
 fn parse_probe(req: &J) -> J {
     let text = match req.get("text").and_then(J::as_str) {
         Some(t) => t,
@@ -491,6 +594,7 @@ fn main() {
         };
         let res = catch_unwind(AssertUnwindSafe(|| match mode.as_str() {
             "dump" => dump(&req),
+            "run" if req.get("op").and_then(J::as_str) == Some("mapvalue") => mapvalue(&req),
             "run" => run(&req),
             "parse" => parse_probe(&req),
             "layout" => layout(&req),
